@@ -35,4 +35,19 @@ PROPS = {
             "plane and buffer lengths as produced by Vp8Decoder and checked by read_image (ybuf = w*h, chroma = ceil(w/2)*ceil(h/2), buf = bpp*w*h)",
         ],
     },
+    "C15": {
+        "technique": "Lean 4 invariant + simulation proofs (fast path = cold path on every state; register invariant) + exhaustive short-string correspondence against the model and the RFC decoder",
+        "level_text": "Theorems for every decoder state, byte string and request: each public read (bool, flag, literal, optional signed, tree) equals the fallback path whether or not the speculative path commits; the register invariant 128<=range<=255, -8<=bit_count<=31 holds initially and after every read (all shifts legal, debug_asserts hold); read_flag = read_bool(128); exhaustion is sticky and side-effect free; the crate's trees are well-shaped. The refinement of the model to the RFC 6386 section 7.3 decoder (values until exhaustion, exhaustion after the same request) is stated (C15.refines_rfc_full) and in this pass is established by execution, not proof: the real decoder, the model and the RFC decoder are run on ALL byte strings of length 0..2 (thorough: 0..3) x 13 request programs and on random longer strings.",
+        "level_note": "Trusted: Lean kernel + standard axioms; transcription of RFC 6386 section 7.3 (text not available offline; cross-read against libwebp's bit_reader) ; the refinement to the RFC decoder is differential, not yet a theorem (listed under partial).",
+        "design_ref": "DESIGN.md section 4, C15",
+        "trusted_base": COMMON_TB + [
+            "modelled, not verified: vp8_arithmetic_decoder.rs (State, init, load_from_final_bytes, cold_read_bit/flag/literal/optional_signed/with_tree, FastDecoder::*, commit_if_valid, the five public read_* entry points, is_past_eof) as Arith.*; u64 truncation of `value <<= n` explicit",
+            "specification: RFC 6386 section 7.3 boolean decoder transcribed as BoolDec.* with unbounded value register and zero bytes past the end; 'consumed more than one byte beyond the data' = some decision depended on byte index >= len+1",
+        ],
+        "assumptions": [
+            "tree requests use the crate's own tree tables (regenerated from vp8.rs); probabilities are bytes",
+            "strings with a leading 0xFF (never produced by a boolean encoder) are compared with the RFC decoder only as long as the 64-bit register does not overflow: non-normative corner recorded in DESIGN.md",
+        ],
+        "partial": ["C15.refines_rfc_full (model = RFC decoder for all strings/programs) is stated but not yet proved; it is validated exhaustively for strings of length <= 2 (quick) / <= 3 (thorough) and randomly beyond"],
+    },
 }
